@@ -9,6 +9,14 @@ package control
 // goroutine: it is the observation point "the old generation is being closed" and the place where the harness lets
 // the scheduler decide how long the teardown of the old generation lasts. The rest of the real Close (janitor stops,
 // close tail) runs for real on the zero plane.
-func VerifC20RetiringPlane(onClose func()) *ControlPlane {
-	return &ControlPlane{cancel: onClose}
+// withImmortalSession: the old generation still serves one session that never ends by itself (ssh, websocket, long
+// download): ActiveSessionCount() stays 1 and DrainIdleCh() stays open, so a graceful drain can only end through its
+// timeout or through cancellation.
+func VerifC20RetiringPlane(onClose func(), withImmortalSession bool) *ControlPlane {
+	c := &ControlPlane{cancel: onClose}
+	if withImmortalSession {
+		c.drainTracker = newControlPlaneDrainTracker()
+		_ = c.drainTracker.Acquire() // never released
+	}
+	return c
 }
